@@ -110,7 +110,29 @@ struct Plan {
     seed: u64,
 }
 
+/// A would-be violation is only reported when it repeats: that a call is complete in the server's socket does not
+/// mean the runtime has told the server task yet (readiness travels through the reactor, which on a loaded machine
+/// may run after the gate has opened). The same plan is run again up to four times, giving the reactor 2, 10, 50
+/// and 200 ms between the last write and the opening of the gate; unfairness of the server itself shows every time.
 fn one_case(p: &Plan, dir: &std::path::Path, rep: &mut Report) {
+    let mut scratch = Report::new("C18", "c18-real");
+    one_try(p, Duration::ZERO, dir, &mut scratch);
+    let timing_kind = |r: &Report| r.violations.iter().any(|v| v.signature.contains("one-connection-served-twice"));
+    if timing_kind(&scratch) {
+        for grace in [2u64, 10, 50, 200] {
+            let mut again = Report::new("C18", "c18-real");
+            one_try(p, Duration::from_millis(grace), dir, &mut again);
+            if !timing_kind(&again) {
+                rep.count("orders_that_did_not_repeat_with_a_grace_period_for_the_reactor");
+                rep.merge(again);
+                return;
+            }
+        }
+    }
+    rep.merge(scratch);
+}
+
+fn one_try(p: &Plan, grace: Duration, dir: &std::path::Path, rep: &mut Report) {
     let desc = format!("real-socket fairness {} bursts={:?} victims={} seed={}", p.kind.name(), p.bursts, p.victims, p.seed);
     let replay = json!({"monitor": "c18", "case": desc});
     rep.eval(vnet::fnv(desc.as_bytes()));
@@ -199,6 +221,9 @@ fn one_case(p: &Plan, dir: &std::path::Path, rep: &mut Report) {
             socks[c as usize].write_all(&call_bytes(c, 1)).map_err(|e| inc(format!("write: {e}")))?;
         }
         let held_at = log.lock().unwrap().len();
+        if !grace.is_zero() {
+            std::thread::sleep(grace);
+        }
         gate.store(true, Ordering::SeqCst);
         // collect every reply
         for (c, s) in socks.iter_mut().enumerate() {
